@@ -692,7 +692,7 @@ def _interp(ops):
                 elif how == "deepcopy":
                     g = copy.deepcopy(f)
                 elif how == "pickle":
-                    g = pickle.loads(pickle.dumps(f))
+                    g = pickle.loads(pickle.dumps(f, protocol=step % (pickle.HIGHEST_PROTOCOL + 1)))
                 else:
                     g = type(f)(f.as_integer) if isinstance(f, frame.BackwardFrame) else type(f)(len(f), f.as_byte_sequence)
                 if type(g) is not type(f) or not (g == f) or (g != f) or g is f:
